@@ -64,6 +64,13 @@ package fetcher
 //@
 //@ // ===== C10: time-travel reads (and subscriptions, which use them) go through the same guard: the inner
 //@ // fetcher is initialised with the requester's identity, the access-control handle and the collection
+//@ // NewDocumentFetcher only allocates the wrapper (assumed: it writes no existing memory)
+//@ extern fetcher.NewDocumentFetcher() -> (r)
+//@   pure
+//@   nodefault
 //@ func (*VersionedFetcher).Init -> (err)
-//@   assert before call#2 Init: arg2 == identity && arg4 == documentACP && arg6 == col && arg3 == res(NewTxnFrom, 1, 0)
+//@   assert before call#1 Init: arg2 == identity
+//@   assert before call#1 Init: arg4 == documentACP
+//@   assert before call#1 Init: arg6 == col
+//@   assert before call#1 Init: arg3 == box(res(NewTxnFrom, 1, 0))
 //@   tags C10 C03
